@@ -171,7 +171,7 @@ impl Cx {
         assert!(!out.is_empty(), "--out required");
         let f = std::fs::File::create(&out).expect("create trace file");
         *OUT.lock().unwrap() = Some(std::io::BufWriter::with_capacity(1 << 20, f));
-        std::panic::set_hook(Box::new(|_| {}));
+        if std::env::var("VH_LOUD").is_err() { std::panic::set_hook(Box::new(|_| {})); }
         let prof = if cfg!(debug_assertions) { "chk" } else { "rel" };
         let thorough = tier == "thorough";
         if scale == 0 {
